@@ -27,6 +27,10 @@ def build_dfa(src):
         rng = random.Random(src["seed"])
         S = rng.choice(src.get("alphabets", ["a", "ab", "ab", "abc"]))
         D = U.random_dfa(rng, rng.randint(1, src.get("maxk", 6)), S)
+    elif src["kind"] == "eps_alphabet_dfa":
+        # the glyph the library uses as its default epsilon symbol is a legal ALPHABET symbol of a DFA
+        rng = random.Random(src["seed"])
+        return U.random_dfa(rng, rng.randint(1, 4), rng.choice(["ε", "aε", "a_"]))
     elif src["kind"] == "numbered_dfa":
         # 10-13 states named <hint><number> with the hints the library's own fresh names use (numbers beyond 9)
         rng = random.Random(src["seed"])
@@ -52,6 +56,9 @@ def dfa_srcs(task):
         for code in range(task["lo"], task["hi"], task.get("stride", 1)):
             yield {"kind": "exh_dfa", "k": task["k"], "S": task["S"], "code": code, "pool": task.get("pool", 0),
                    "perm": code % 7}
+    elif task["kind"] == "eps_alphabet_dfa":
+        for i in range(task["count"]):
+            yield {"kind": "eps_alphabet_dfa", "seed": task["seed"] * 100000 + i}
     elif task["kind"] == "numbered_dfa":
         for i in range(task["count"]):
             yield {"kind": "numbered_dfa", "seed": task["seed"] * 100000 + i}
